@@ -189,3 +189,45 @@ def _small_fmtstrs():
 
 
 shared_atts.enumerate_small = _small_fmtstrs
+
+
+# ------------------------------------------------------------------ copy_with_new_str                              C14
+#   "copy_with_new_str swaps the text while keeping a uniformly formatted string's formatting": if every run that has characters
+#   carries the attributes A (and, when no run has characters, every run does), the result is ONE run with the new text and A.
+from pyvc.contract import StrT
+
+
+def _cwns_setup(st, values):
+    values["_A"] = Sym("atts", fresh("uniform_atts", T.Atts))
+
+
+def _cwns_requires(a):
+    xs = _runs(a.self)
+    n = length(xs)
+    nochars = T.TOTLEN(xs) == 0
+    return [lambda i: Implies(And(i >= 0, i < n, Or(length(T.ChunkS.s(xs[i])) > 0, nochars)), T.ChunkS.atts(xs[i]) == a._A),
+            Implies(n == 0, a._A == T.NOATTS),
+            lambda i: Implies(And(i >= 0, i < n), And(length(T.ChunkS.s(xs[i])) >= 0, T.TOTLEN(xs) >= length(T.ChunkS.s(xs[i]))))]
+
+
+def _cwns_ensures(a, r):
+    if z3.is_expr(a.self):
+        st = a.final_state
+        st.add_index(z3.IntVal(0))
+        return [("post.one_run_with_the_new_text_and_the_old_formatting",
+                 r == T.FmtS.mkfmt(z3.Unit(T.ChunkS.mkchunk(a.new_str, a._A))))]
+    runs = [c for c in a.self.chunks if len(c.s) > 0] or list(a.self.chunks)
+    fmts = {tuple(sorted(c.atts.items())) for c in runs}
+    if len(fmts) > 1:
+        return [("post.one_run_with_the_new_text_and_the_old_formatting", True)]       # not uniformly formatted: the statement is silent
+    want = dict(next(iter(fmts))) if fmts else {}
+    return [("post.one_run_with_the_new_text_and_the_old_formatting",
+             len(r.chunks) == 1 and r.chunks[0].s == a.new_str and dict(r.chunks[0].atts) == want)]
+
+
+copy_with_new_str = Contract(
+    M + "FmtStr.copy_with_new_str", "C14", ["self", "new_str"], kind="method",
+    shapes=[Shape("uniform", dict(self=FmtT(), new_str=StrT(plain=False)))],
+    requires=_cwns_requires, ensures=_cwns_ensures, result=FmtT())
+copy_with_new_str.setup = _cwns_setup
+copy_with_new_str.enumerate_small = lambda: ({"self": d["self"], "new_str": "zz"} for d in _small_fmtstrs())
